@@ -10,6 +10,7 @@ import MayVerif.Proof.Time.TL.Prompt
 import MayVerif.Proof.Time.TimerThread
 import MayVerif.Proof.Time.Deadline
 import MayVerif.Proof.Time.ParkTimer
+import MayVerif.Proof.Time.SleepTimer
 namespace MayVerif.Time
 open Consts
 
@@ -345,5 +346,50 @@ theorem timed_wait_returns_recheck (sched : List PT.Act) :
 -- non-vacuity: in all three orders the ordinary time-out path resumes the waiter with Timeout after the deadline
 example : (PT.run { order := .pinned } [.park, .c, .k, .k, .k, .k, .k, .due, .fireCur]).cpc = .run true := by decide
 example : (PT.run { order := .recheck } [.park, .c, .k, .k, .k, .k, .k, .k, .due, .fireCur]).cpc = .run true := by decide
+
+/-! ### `Sleep::subscribe`: the sleeper is in its slot before the timer entry exists (`Model/Time/SleepTimer.lean`)
+
+  `sleep(d)` has no wake source but its own timer entry, and - unlike `Park::subscribe` - its kernel tail has no
+  deadline re-check: what makes it return is the ORDER "the slot holds the coroutine, then `add_timer`". The live family
+  `sleep_live` runs `coroutine::sleep` on the real runtime (hang watchdog, exact lower bound). -/
+
+/-- **sleep(d) returns, and not before its deadline** (quiescence form, as `timed_wait_returns`): in the order of the
+    code (publish, then arm) a suspended sleeper whose deadline has passed is never stranded - once the kernel tail is
+    through, the entry is armed, so the timer thread still has to fire it, and a fired entry always finds the coroutine
+    (`lostFire` stays false); the sleeper is resumed only by an entry that was due (`early` stays false). Any number of
+    sleeps, every schedule. -/
+theorem sleep_returns (sched : List SLT.Act) :
+    SLT.stuck (SLT.run { order := .publishFirst } sched) = false ∧
+    (SLT.run { order := .publishFirst } sched).lostFire = false ∧
+    (SLT.run { order := .publishFirst } sched).early = false := by
+  have h := SLT.run_inv SLT.InvS SLT.invS_step _ sched SLT.invS_init
+  generalize SLT.run { order := .publishFirst } sched = s at *
+  refine ⟨?_, h.noLost, h.noEarly⟩
+  cases hs : SLT.stuck s with
+  | false => rfl
+  | true =>
+    simp only [SLT.stuck, SLT.quiescent, Bool.and_eq_true, decide_eq_true_eq, Bool.not_eq_true', Bool.and_eq_false_iff] at hs
+    obtain ⟨⟨⟨hk, hnd⟩, hc⟩, hdue⟩ := hs
+    have ha := h.arm hc (by rw [hk]; decide)
+    rcases hnd with hnd | hnd
+    · rw [ha] at hnd; cases hnd
+    · rw [hdue] at hnd; cases hnd
+
+/-- the order of the seeded change C08_c (slot created empty, `add_timer`, then `sleep_co.store(co)`, no re-check) is
+    NOT safe: sleep; the tail arms the timer; the deadline passes and the timer fires - its `take` finds the slot empty,
+    the entry is consumed; the tail then publishes the coroutine into a slot nobody will ever look at again. -/
+theorem sleep_returns_armfirst_false :
+    ∃ sched, SLT.stuck (SLT.run { order := .armFirst } sched) = true ∧
+      (SLT.run { order := .armFirst } sched).lostFire = true :=
+  ⟨[.sleep, .k, .due, .fire, .k, .k], by decide⟩
+
+-- non-vacuity: in both orders the ordinary path (tail through, deadline passes, the entry fires) resumes the sleeper,
+-- which returns; the hypotheses of `sleep_returns` are met by a suspended, due sleeper that is not stuck (its entry is armed)
+example : (SLT.run { order := .publishFirst } [.sleep, .k, .k, .k, .due, .fire]).cpc = .run := by decide
+example : (SLT.run { order := .armFirst } [.sleep, .k, .k, .k, .due, .fire, .c]).sleeps = 1 := by decide
+example : let s := SLT.run { order := .publishFirst } [.sleep, .k, .k, .due]
+    s.cpc = .susp ∧ s.due = true ∧ s.armed = true ∧ SLT.stuck s = false := by decide
+-- the race the order decides: the entry fires while the tail is between its two steps - the code's order resumes the sleeper
+example : (SLT.run { order := .publishFirst } [.sleep, .k, .k, .due, .fire, .k]).cpc = .run := by decide
 
 end MayVerif.Time
